@@ -378,6 +378,7 @@ type vpC21Op struct {
 	method string
 	hops   []vpC21Hop
 	close  bool
+	resend bool // Do / DoTimeout / DoDeadline on Client or HostClient: the request that was just sent is duplicated with Request.CopyTo and the copy is sent as well (retry / mirroring)
 }
 
 func (o vpC21Op) follows() bool { return o.api >= 3 }
@@ -455,6 +456,9 @@ func vpC21GenCase(t *rapid.T) *vpC21Case {
 			}
 		}
 		o.close = rapid.IntRange(0, 4).Draw(t, "opclose") == 0
+		if o.api <= 2 && c.kind != 2 {
+			o.resend = rapid.IntRange(0, 3).Draw(t, "resend") == 0
+		}
 		c.ops = append(c.ops, o)
 	}
 	return c
@@ -471,6 +475,9 @@ func (c *vpC21Case) String() string {
 	}
 	for _, o := range c.ops {
 		fmt.Fprintf(&sb, " | api%d/%d %s %s://%s%s", o.api, o.form, o.method, o.target.scheme, o.target.host, o.target.port)
+		if o.resend {
+			sb.WriteString(" +copy-resent")
+		}
 		for _, h := range o.hops {
 			fmt.Fprintf(&sb, " ->%d(f%d)%s://%s%s", h.status, h.form, h.target.scheme, h.target.host, h.target.port)
 		}
@@ -486,6 +493,7 @@ type vpC21Stats struct {
 	tlsReqs, plainReqs  int
 	reused              int
 	clientErrs          int
+	resent              int
 }
 
 type vpC21Doer interface {
@@ -661,6 +669,16 @@ func vpC21Exec(c *vpC21Case) (string, vpC21Stats) {
 				status, _, err = hcs[0].Post(nil, url, nil)
 			}
 		}
+		if o.resend {
+			// the copy of a request is the same request: same URL, same scheme
+			req2 := AcquireRequest()
+			resp2 := AcquireResponse()
+			req.CopyTo(req2)
+			doer.Do(req2, resp2) //nolint:errcheck
+			ReleaseRequest(req2)
+			ReleaseResponse(resp2)
+			st.resent++
+		}
 		ReleaseRequest(req)
 		ReleaseResponse(resp)
 
@@ -801,6 +819,7 @@ func TestVP_C21_SchemeTransport(t *testing.T) {
 		vpExtra("c21_requests_plaintext", int64(st.plainReqs))
 		vpExtra("c21_requests_on_reused_conns", int64(st.reused))
 		vpExtra("c21_refusals", int64(st.refusals))
+		vpExtra("c21_copied_requests_resent", int64(st.resent))
 		vpExtra("c21_client_call_errors", int64(st.clientErrs))
 		if msg != "" {
 			t.Fatalf("C21: %s\ncase: %s", msg, c.String())
